@@ -34,7 +34,11 @@ func init() {
 		ID:    "C19",
 		Level: "exploration",
 		Race:  true,
-		Rule: "each workload = a list of operations per goroutine (operations on values the goroutine owns, or read-only queries on a value shared by all goroutines); every operation is first executed sequentially to obtain its expected result fingerprint, then the lists run on 16 goroutines of a -race build at GOMAXPROCS 2, 4 and 16 with seeded Gosched calls between operations, repeated; judged: zero data-race reports (counted from the race detector's log, deduplicated by the innermost library frames) and every concurrent result equal to the sequential one. " +
+		// every unit in a fresh process: package-level state and caches inside shared values are cold when the
+		// goroutines start (a lazily filled table is only racy while it is being filled)
+		UnitPerProcess: true,
+		MaxJobs:        4,
+		Rule: "each workload = a list of operations per goroutine (operations on values the goroutine owns, or read-only queries on a value shared by all goroutines); every unit runs in a FRESH process of a -race build and starts with the concurrent phase on freshly built (cold) values: the lists run on 16 goroutines at GOMAXPROCS 16, then 4, then 2, with seeded Gosched calls between operations, repeated; afterwards every operation is executed sequentially on a second, independently built instance of the same values to obtain its expected result fingerprint; judged: zero data-race reports (counted from the race detector's log, deduplicated by the innermost library frames) and every concurrent result equal to the sequential one. " +
 			"non-trivial = pair of operations on different goroutines whose [call, return] intervals overlapped in time (one monotonic clock); distinct = (workload, round, operation pair), counted by a sweep over the recorded intervals",
 		Assumptions: []string{
 			"the Go race detector reports only races between accesses that were executed; schedules are sampled",
@@ -155,9 +159,15 @@ func words(r *engine.Rng, n int, alpha int) [][]byte {
 	set := map[string]bool{}
 	for len(set) < n {
 		l := r.Intn(7)
+		if alpha > 30 {
+			l = r.Intn(4)
+		}
 		b := make([]byte, l)
 		for i := range b {
-			b[i] = byte('a' + r.Intn(alpha))
+			b[i] = byte(r.Intn(alpha))
+			if alpha <= 26 {
+				b[i] += 'a'
+			}
 		}
 		set[string(b)] = true
 	}
@@ -173,9 +183,11 @@ func words(r *engine.Rng, n int, alpha int) [][]byte {
 	return out
 }
 
-func sharedDawg(c *engine.Ctx, G int) (workload, error) {
+func sharedDawg(c *engine.Ctx, G int, rep int) (workload, error) {
 	w := workload{name: "shared-dawg"}
-	ws := words(c.Rand("c19-dawg", 0), 600, 4)
+	// alphabet width varies with the repetition: narrow (deep sharing) to wide (nodes with > 100 links)
+	alpha := []int{26, 4, 120, 12, 250, 60}[rep%6]
+	ws := words(c.Rand("c19-dawg", rep), 900, alpha)
 	d, err := dawg.New(ws)
 	if err != nil {
 		return w, err
@@ -188,12 +200,16 @@ func sharedDawg(c *engine.Ctx, G int) (workload, error) {
 			word := ws[r.Intn(len(ws))]
 			probe := append([]byte{}, word...)
 			if t%3 == 0 && len(probe) > 0 {
-				probe[r.Intn(len(probe))] = byte('a' + r.Intn(5))
+				letter := byte(r.Intn(alpha)) // a letter of the alphabet
+				if alpha <= 26 {
+					letter += 'a'
+				}
+				probe[r.Intn(len(probe))] = letter
 			}
 			pat := append([]byte{}, word...)
 			for i := range pat {
 				if r.Bool(0.4) {
-					pat[i] = '?'
+					pat[i] = 255
 				}
 			}
 			ana := append([]byte{}, word...)
@@ -205,15 +221,15 @@ func sharedDawg(c *engine.Ctx, G int) (workload, error) {
 			ops = append(ops,
 				op{"Lookup", func() string { id, ok := d.Lookup(probe); return fp(id, ok) }},
 				op{"Search(pattern)", func() string {
-					s, ids := d.Search(dawg.NewPatternSearcher(pat, '?'))
+					s, ids := d.Search(dawg.NewPatternSearcher(pat, 255))
 					return fp(len(s), ids, hashWords(s))
 				}},
 				op{"Search(anagram)", func() string {
-					s, ids := d.Search(dawg.NewAnagramSearcher(ana, '?'))
+					s, ids := d.Search(dawg.NewAnagramSearcher(ana, 255))
 					return fp(len(s), ids, hashWords(s))
 				}},
 				op{"Search(pattern+anagram)", func() string {
-					s, ids := d.Search(dawg.NewPatternSearcher(pat, '?'), dawg.NewAnagramSearcher(ana, '?'))
+					s, ids := d.Search(dawg.NewPatternSearcher(pat, 255), dawg.NewAnagramSearcher(ana, 255))
 					return fp(len(s), ids)
 				}},
 			)
@@ -583,24 +599,15 @@ func librarySite(stack string) string {
 	return "?"
 }
 
-func runWorkload(c *engine.Ctx, w workload, rounds int) {
-	// sequential expectations (guarded: a panic here is judged by the other properties; skip the op)
-	expected := make([][]string, len(w.ops))
-	bad := map[string]bool{}
-	for g := range w.ops {
-		expected[g] = make([]string, len(w.ops[g]))
-		for i, o := range w.ops[g] {
-			var s string
-			if pi := c.Call("c19|"+w.name+"|sequential|"+o.name, func() { s = o.f() }); pi != nil {
-				bad[fmt.Sprint(g, ":", i)] = true
-				c.Obs("ops_panicking_sequentially(skipped)", 1)
-				continue
-			}
-			expected[g][i] = s
-			c.Obs("ops_sequential", 1)
-		}
+// runWorkload: w is the instance the goroutines work on (cold), ref an independently built second instance used
+// only sequentially, afterwards, to obtain the expected fingerprints.
+func runWorkload(c *engine.Ctx, w, ref workload, rounds int) {
+	type conc struct {
+		procs int
+		res   [][][]result
 	}
-	for _, procs := range []int{2, 4, 16} {
+	var runs []conc
+	for _, procs := range []int{16, 4, 2} {
 		old := runtime.GOMAXPROCS(procs)
 		var res [][][]result
 		var ivs []interval
@@ -614,9 +621,28 @@ func runWorkload(c *engine.Ctx, w workload, rounds int) {
 		pairs := overlappingPairs(ivs)
 		c.NTDistinct(int(pairs))
 		c.Obs("overlapping_pairs:"+w.name, int(pairs))
-		for g := range res {
-			for round := range res[g] {
-				for i, r := range res[g][round] {
+		runs = append(runs, conc{procs, res})
+	}
+	// sequential expectations on the second instance (a panic here is judged by the other properties: skip the op)
+	expected := make([][]string, len(ref.ops))
+	bad := map[string]bool{}
+	for g := range ref.ops {
+		expected[g] = make([]string, len(ref.ops[g]))
+		for i, o := range ref.ops[g] {
+			var s string
+			if pi := c.Call("c19|"+w.name+"|sequential|"+o.name, func() { s = o.f() }); pi != nil {
+				bad[fmt.Sprint(g, ":", i)] = true
+				c.Obs("ops_panicking_sequentially(skipped)", 1)
+				continue
+			}
+			expected[g][i] = s
+			c.Obs("ops_sequential", 1)
+		}
+	}
+	for _, cr := range runs {
+		for g := range cr.res {
+			for round := range cr.res[g] {
+				for i, r := range cr.res[g][round] {
 					if bad[fmt.Sprint(g, ":", i)] {
 						continue
 					}
@@ -624,11 +650,11 @@ func runWorkload(c *engine.Ctx, w workload, rounds int) {
 					c.Obs("ops_concurrent", 1)
 					name := w.ops[g][i].name
 					if r.panic != "" {
-						c.Violation("concurrent|"+w.name+"|panic|"+name+"|"+librarySite(r.site), map[string]interface{}{"workload": w.name, "op": name, "goroutine": g, "round": round, "GOMAXPROCS": procs}, "panic: "+r.panic+"\n"+r.site, "the sequential result "+expected[g][i])
+						c.Violation("concurrent|"+w.name+"|panic|"+name+"|"+librarySite(r.site), map[string]interface{}{"workload": w.name, "op": name, "goroutine": g, "round": round, "GOMAXPROCS": cr.procs}, "panic: "+r.panic+"\n"+r.site, "the sequential result "+expected[g][i])
 						continue
 					}
 					if r.got != expected[g][i] {
-						c.Violation("concurrent|"+w.name+"|result-differs|"+name, map[string]interface{}{"workload": w.name, "op": name, "goroutine": g, "round": round, "GOMAXPROCS": procs}, r.got, expected[g][i]+" (result of the same operation run alone)")
+						c.Violation("concurrent|"+w.name+"|result-differs|"+name, map[string]interface{}{"workload": w.name, "op": name, "goroutine": g, "round": round, "GOMAXPROCS": cr.procs}, r.got, expected[g][i]+" (result of the same operation run alone on an independently built value)")
 					}
 				}
 			}
@@ -640,7 +666,7 @@ func runWorkload(c *engine.Ctx, w workload, rounds int) {
 func run(c *engine.Ctx) {
 	G := 16
 	rounds := c.Pick(3, 12)
-	reps := c.Pick(2, 6)
+	reps := c.Pick(3, 12)
 	for rep := 0; rep < reps; rep++ {
 		rep := rep
 		mk := []struct {
@@ -654,7 +680,7 @@ func run(c *engine.Ctx) {
 				return searchShards(8, 16), nil
 			}},
 			{"canonical", func() (workload, error) { return canonical(c, G), nil }},
-			{"shared-dawg", func() (workload, error) { return sharedDawg(c, G) }},
+			{"shared-dawg", func() (workload, error) { return sharedDawg(c, G, rep) }},
 			{"shared-graphs", func() (workload, error) { return sharedGraphs(c, G), nil }},
 			{"own-values", func() (workload, error) { return ownValues(c, G), nil }},
 			{"comb", func() (workload, error) { return combTables(G), nil }},
@@ -668,9 +694,14 @@ func run(c *engine.Ctx) {
 				if raceEnabled {
 					c.Obs("race_build", 1)
 				}
-				var w workload
+				var w, ref workload
 				var err error
-				if pi := c.Call("c19|"+m.name+"|setup", func() { w, err = m.f() }); pi != nil || err != nil {
+				if pi := c.Call("c19|"+m.name+"|setup", func() {
+					w, err = m.f()
+					if err == nil {
+						ref, err = m.f()
+					}
+				}); pi != nil || err != nil {
 					c.Inconclusive(fmt.Sprintf("setup of workload %s failed: %v %v", m.name, pi, err))
 					return
 				}
@@ -678,7 +709,7 @@ func run(c *engine.Ctx) {
 				if m.name == "search-shards" {
 					r = 1 + rounds/3
 				}
-				runWorkload(c, w, r)
+				runWorkload(c, w, ref, r)
 				if rep == 0 {
 					var names []string
 					for _, o := range w.ops[0] {
